@@ -428,6 +428,10 @@ def f_glob(present=("a", "b"), mode="tree", subs="none", cfg=0, nest=0, deep=0):
     files["data/"] = ""
     body = [tr("G", ["data/{n}.txt"], ["out/{n}.out"])]
     decl = ["static", "data/"] if mode == "tree" else ["static", "data/*.txt"]
+    if mode == "names":
+        # every present file is declared static by name: its node stays (MISSING) when the file
+        # is deleted, whatever the glob of another step records
+        decl = ["static", *[f"data/{n}.txt" for n in present]]
     globbing = ["glob", "data/${*n}.txt", {} if subs == "none" else {"n": "[ab]"}, body]
     if cfg:
         files["cfg.txt"] = "cfg\n"
